@@ -365,7 +365,7 @@ pub struct TheoryResult {
     pub groups_nontrivial: u64,
     pub violations: Vec<Violation>,
     pub samples: Vec<Value>,
-    pub transcripts: Vec<(u64, u64)>,
+    pub transcripts: Vec<(u64, u64, String)>,
 }
 
 struct Node { history: Vec<Op>, explored_from: usize, transcript: u64 }
@@ -524,7 +524,7 @@ pub fn explore_theory(th: &Theory, make: fn() -> Box<dyn DynModel>, b: &Bounds, 
                 }
                 if seen.insert(o.key) {
                     if res.samples.len() < 3 && hist.len() >= node.explored_from + 3 && matches!(op, Op::Close) { res.samples.push(history_json(th, &hist)["text"].clone()); }
-                    if oracles.collect_transcripts { res.transcripts.push((hash_history(&hist), o.transcript)); }
+                    if oracles.collect_transcripts { res.transcripts.push((hash_history(&hist), o.transcript, hist.iter().map(|x| x.show(th)).collect::<Vec<_>>().join("; "))); }
                     next.push(Node { history: hist, explored_from: node.explored_from, transcript: o.transcript });
                 }
             }
